@@ -995,4 +995,4 @@ def s5_case(spec):
         call = ('%s a[3]; fill(a, sizeof a, 9); f@(a, 0, 2); f@(a, 1, 0); dump(a, sizeof a);' % S)
     fn = ty + ';\n' + guard + fn + '\n'
     drive = '%s %s %s' % (pre, call, post)
-    return Case('S5', 'S5/%s/%s/size%d-align%d' % (op, var, size, al), fn.replace('@', ''), fn, drive, ['size=%d align=%d' % (size, al)], lines_per=None)
+    return Case('S5', 'S5/%s/align%d' % (op, al), fn.replace('@', ''), fn, drive, ['size=%d align=%d variant=%s' % (size, al, var)], lines_per=None)
